@@ -99,6 +99,22 @@ def normalise_code(text, fired):
     # for the future.  Used only where E is one call of a connection-task entry point whose stub returns a ghost description of
     # the task; nothing about E's effects is (or may be) concluded at the spawn point.
     text = code_sub(text, r'(?<![A-Za-z0-9_])async\s+(?:move\s+)?(?=\{)', '', fired, 'N24')
+    # N26: an inline byte-string literal that is immediately copied, b"abc".to_vec(), becomes the array literal of its bytes,
+    # [97u8, 98u8, 99u8].to_vec()  (Verus treats byte-string literal contents as opaque; a mechanical transcription)
+    def bstr(mm):
+        lit = mm.group(1)
+        out, i = [], 0
+        while i < len(lit):
+            c = lit[i]
+            if c == '\\':
+                n = lit[i + 1]
+                if n == 'x':
+                    out.append(int(lit[i + 2:i + 4], 16)); i += 4; continue
+                out.append({'n': 10, 'r': 13, 't': 9, '0': 0, '\\': 92, '"': 34, "'": 39}[n]); i += 2; continue
+            out.append(ord(c)); i += 1
+        fired['N26'] = fired.get('N26', 0) + 1
+        return '[' + ', '.join('%du8' % b for b in out) + '].to_vec()'
+    text = re.sub(r'(?<![A-Za-z0-9_])b"((?:[^"\\]|\\.)*)"\s*\.to_vec\(\)', bstr, text)
     # N4
     text = code_sub(text, r'u32::from_be_bytes\(', 'u32_from_be_bytes(', fired, 'N4')
 
@@ -814,6 +830,11 @@ class Gen:
             lead2 = re.sub(r'Debug\s*,\s*', '', lead2)
             lead2 = re.sub(r',?\s*Debug', '', lead2)
             lead2 = re.sub(r'#\[derive\(\s*,?\s*\)\]\n', '', lead2)
+        if 'noderive' in opts:
+            # N1 (option): all derives dropped (a derived Clone / PartialEq on a type that is recursive through a HashMap is a
+            # dependency cycle for Verus); nothing extracted may then use them
+            lead2 = re.sub(r'[ \t]*#\[derive\([^)]*\)\]\n', '', lead2)
+            fired['N1'] = fired.get('N1', 0) + 1
         for k, v in fired.items():
             self.fired[k] = self.fired.get(k, 0) + v
         self.items.append((kind, name, src.path, sha(before), sha(lead2 + decl2), sorted(fired)))
